@@ -150,7 +150,7 @@ fn walk_items(items: &[syn::Item], prefix: &str, out: &mut Vec<Value>) {
                 let ty = type_name(&im.self_ty);
                 let base = match &im.trait_ {
                     None => format!("{}{}", prefix, ty),
-                    Some((_, p, _)) => format!("{}<{} as {}>", prefix, ty, p.segments.last().map(|s| s.ident.to_string()).unwrap_or_default()),
+                    Some((_, p, _)) => format!("{}{}@{}", prefix, ty, p.segments.last().map(|s| s.ident.to_string()).unwrap_or_default()),
                 };
                 let header_end = rng(im.brace_token.span.open()).0;
                 out.push(json!({"kind":"impl","key":base.clone(),"attrs":attrs_json(&im.attrs),"span":jr(im.span()),
